@@ -86,10 +86,32 @@ def mutants(files, rnd):
                             continue  # a declaration or a struct field name, not a use
                         new = code[: m.start()] + b_ + code[m.end():] + l[len(code):]
                         ms.append({"file": f, "line": i, "old": l.strip(), "new": new.strip(), "text": new, "op": "pair"})
+            # a condition forced: the guarded code runs always / never
+            m = re.match(r"^(\s*)(\} else )?if (?!let )(.+) \{\s*$", code)
+            if m:
+                for v in ("true", "false"):
+                    new = "%s%sif %s {" % (m.group(1), m.group(2) or "", v)
+                    ms.append({"file": f, "line": i, "old": l.strip(), "new": new.strip(), "text": new, "op": "ifforce"})
+            m = re.match(r"^(\s*)while (?!let )(.+) \{\s*$", code)
+            if m:
+                new = "%swhile false {" % m.group(1)
+                ms.append({"file": f, "line": i, "old": l.strip(), "new": new.strip(), "text": new, "op": "ifforce"})
             # statement deletion: a one-line statement that is not a declaration
             st = code.strip()
             if re.match(r"^(\*?[a-z_][A-Za-z0-9_.\[\]()&*]*\s*([-+*/%]?=)[^=]|[a-z_][A-Za-z0-9_.:]*(\.[a-z_]+)*\(|continue;|break;)", st) and st.endswith(";") and not st.startswith(("let ", "return", "use ", "pub ")) and st.count("(") == st.count(")"):
                 ms.append({"file": f, "line": i, "old": st, "new": "/* deleted */", "text": l[: len(l) - len(l.lstrip())] + "/* deleted */"})
+        # two neighbouring one-line statements exchanged (order of two updates)
+        cl = code_lines(p)
+        for (i1, l1), (i2, l2) in zip(cl, cl[1:]):
+            if i2 != i1 + 1:
+                continue
+            s1, s2 = l1.strip(), l2.strip()
+            ind = lambda x: len(x) - len(x.lstrip())
+            if ind(l1) != ind(l2) or not s1.endswith(";") or not s2.endswith(";") or s1 == s2:
+                continue
+            if any(x.startswith(("let ", "use ", "return", "break", "continue", "pub ", "const ", "}")) for x in (s1, s2)) or s1.count("(") != s1.count(")") or s2.count("(") != s2.count(")"):
+                continue
+            ms.append({"file": f, "line": i1, "old": s1 + " / " + s2, "new": s2 + " / " + s1, "text": l2, "text2": l1, "op": "swaplines"})
     rnd.shuffle(ms)
     return ms
 
@@ -105,6 +127,8 @@ def run(m, cache):
         p = os.path.join(dst, m["file"])
         lines = open(p, encoding="utf-8").read().split("\n")
         lines[m["line"]] = m["text"]
+        if "text2" in m:
+            lines[m["line"] + 1] = m["text2"]
         open(p, "w", encoding="utf-8").write("\n".join(lines))
         env = dict(os.environ, HV_REPO=dst, HV_CACHE=cache, HV_EVIDENCE_DIR=os.path.join(tmp, "ev"))
         q = subprocess.run([os.path.join(VERIF, "hv"), "all"], env=env, capture_output=True, text=True)
